@@ -19,11 +19,13 @@ import numpy as np
 from harness import llh_fixtures as fx
 
 N_TOTAL = 40
+N_OF = {0: 40, 1: 40, 2: 55, 3: 12}     # total number of events of the data set (changes between trials)
 
 DATA = {
     0: np.array([0.05, 0.31, 0.52, 0.66, 0.81, 0.97]),            # A
     1: np.array([0.12, 0.28, 0.44, 0.73, 0.79, 0.90]),            # B  (same size as A)
     2: np.array([0.02, 0.15, 0.33, 0.35, 0.58, 0.61, 0.84, 0.88, 0.95]),   # C  (different size)
+    3: np.array([0.37]),                                          # D  (a one-event trial)
 }
 EDGES = np.linspace(0.0, 1.0, 6)
 SOFF_EDGES = np.linspace(0.0, 1.0, 3)
@@ -109,7 +111,21 @@ def _counting_rgi_cls():
     return CountingRGI
 
 
-STUB_TABLE = 0.6 + 0.35 * np.arange(2 * 9, dtype=np.float64).reshape(2, 9) % 1.7   # ratio of the parameter-free factor
+STUB_TABLE = 0.6 + 0.35 * np.arange(3 * 9, dtype=np.float64).reshape(3, 9) % 1.7   # ratio of the parameter-free factor
+
+
+def yields(spec):
+    """detector signal yield table (1 dataset, K sources); spec['dY']: the yield depends on the source's gamma, so the
+    source weights a_k have gradients and SourceWeightedPDFRatio.get_gradient reads its cached R_i / R_ik"""
+    K = spec['K']
+    if not spec.get('dY'):
+        return np.array([[1.0 + 0.25 * k for k in range(K)]]), None
+    b = base(spec)
+
+    def Y(params):
+        g = np.asarray(params['gamma'], dtype=np.float64)
+        return np.array([[1.0 + 0.25 * k + 0.1 * (g[k] - b) for k in range(K)]])
+    return Y, {'gamma': lambda params: np.full((1, K), 0.1)}
 
 
 def build(spec, d, s):
@@ -232,8 +248,8 @@ def build(spec, d, s):
     inner.get_ratio = rec_ratio
     inner.get_gradient = rec_grad
 
-    Y = np.array([[1.0 + 0.25 * k for k in range(K)]])
-    (dsy, sdw, dswf) = fx.make_weight_services(shg_mgr, Y)
+    (Y, dY) = yields(spec)
+    (dsy, sdw, dswf) = fx.make_weight_services(shg_mgr, Y, dY=dY)
     G.services = (dsy, sdw, dswf)
     G.stub = None
     factor = inner
@@ -246,7 +262,7 @@ def build(spec, d, s):
     G.d = d
     G.s = s
     G.events = events_of(G, d)
-    tdm.initialize_trial(shg_mgr=shg_mgr, pmm=pmm, events=G.events, n_events=N_TOTAL)
+    tdm.initialize_trial(shg_mgr=shg_mgr, pmm=pmm, events=G.events, n_events=N_OF[d])
     single = fx.make_single_llhratio(cfg, pmm, shg_mgr, tdm, outer)
     G.single = single
     multi = fx.make_multi_llhratio(cfg, pmm, sdw, dswf, [single])
@@ -266,13 +282,13 @@ def op_init(G, d):
     """new trial on a newly created events array"""
     G.d = d
     G.events = events_of(G, d)
-    G.tdm.initialize_trial(shg_mgr=G.shg_mgr, pmm=G.pmm, events=G.events, n_events=N_TOTAL)
+    G.tdm.initialize_trial(shg_mgr=G.shg_mgr, pmm=G.pmm, events=G.events, n_events=N_OF[G.d])
     G.multi.initialize_for_new_trial()
 
 
 def op_reinit_same(G):
     """new trial on the *same* events array instance (it carries the data fields the previous trial stored in it)"""
-    G.tdm.initialize_trial(shg_mgr=G.shg_mgr, pmm=G.pmm, events=G.events, n_events=N_TOTAL)
+    G.tdm.initialize_trial(shg_mgr=G.shg_mgr, pmm=G.pmm, events=G.events, n_events=N_OF[G.d])
     G.multi.initialize_for_new_trial()
 
 
@@ -377,6 +393,13 @@ def op_grad2(G, ns):
         return 'ERR'
 
 
+def op_grad2_multi(G, ns):
+    """MultiDatasetTCLLHRatio.calculate_ns_grad2 right after an evaluate (it reads the dataset signal weight factors
+    of the weights service and the per-dataset cached ns-gradients)"""
+    ns_pidx = G.pmm.get_gflp_idx('ns')
+    return float(G.multi.calculate_ns_grad2(ns=ns, ns_pidx=ns_pidx, src_params_recarray=None))
+
+
 def op_maximize(G, seed=1):
     from skyllh.core.random import RandomStateService
     from skyllh.core.test_statistic import WilksTestStatistic
@@ -459,7 +482,7 @@ def _i3_events(seed, n):
     return dict(log_energy=rng.uniform(1.2, 6.8, n), sin_dec=sin_dec, dec=np.arcsin(sin_dec))
 
 
-I3_DATA = {0: _i3_events(100, 6), 1: _i3_events(101, 6), 2: _i3_events(102, 9)}
+I3_DATA = {0: _i3_events(100, 6), 1: _i3_events(101, 6), 2: _i3_events(102, 9), 3: _i3_events(103, 1)}
 
 
 _I3_TEMPLATES = {}
@@ -520,14 +543,14 @@ def build_i3(spec, d, s):
     G.energy = copy.deepcopy(_I3_TEMPLATES[key])
     G.stub = fx.StubPDFRatio(cfg, STUB_TABLE[:K], share=True)
     G.product = G.energy * G.stub if spec['order'] == 'first' else G.stub * G.energy
-    Y = np.array([[1.0 + 0.25 * k for k in range(K)]])
-    G.services = fx.make_weight_services(G.shg_mgr, Y)
+    (Y, dY) = yields(dict(spec, scale='small'))
+    G.services = fx.make_weight_services(G.shg_mgr, Y, dY=dY)
     G.outer = SourceWeightedPDFRatio(dataset_idx=0, src_detsigyield_weights_service=G.services[1], pdfratio=G.product, cfg=cfg)
     G.tdm = TrialDataManager()
     G.d = d
     G.s = s
     G.events = events_of(G, d)
-    G.tdm.initialize_trial(shg_mgr=G.shg_mgr, pmm=G.pmm, events=G.events, n_events=N_TOTAL)
+    G.tdm.initialize_trial(shg_mgr=G.shg_mgr, pmm=G.pmm, events=G.events, n_events=N_OF[G.d])
     G.single = fx.make_single_llhratio(cfg, G.pmm, G.shg_mgr, G.tdm, G.outer)
     G.multi = fx.make_multi_llhratio(cfg, G.pmm, G.services[1], G.services[2], [G.single])
     G.multi.initialize_for_new_trial()
@@ -544,19 +567,38 @@ def _b(x):
     return repr(x).encode()
 
 
+MISSING = set()      # private attributes a snapshot wanted to read but did not find (reported as a note, never an alarm)
+
+
+def _get(obj, *names):
+    """obj.a.b… by private names; a missing link is recorded and yields None (a renamed private attribute must neither
+    raise nor silently disable the whole oracle)"""
+    for n in names:
+        if isinstance(obj, dict):
+            if n not in obj:
+                MISSING.add('[%r]' % n)
+                return None
+            obj = obj[n]
+        elif not hasattr(obj, n):
+            MISSING.add('%s.%s' % (type(obj).__name__, n))
+            return None
+        else:
+            obj = getattr(obj, n)
+    return obj
+
+
 def const_snapshot(G):
     """everything that is input to the evaluation and must never be written: spline / grid tables, stub tables"""
     snap = {}
     if G.kind == 'i3':
-        for h, spl in G.energy._gridparams_hash_log_ratio_spline_dict.items():
+        for h, spl in (_get(G.energy, '_gridparams_hash_log_ratio_spline_dict') or {}).items():
             snap['spline:%d' % h] = _b(np.asarray(spl.values))
-        snap['stub.R'] = _b(np.asarray(G.stub.R, dtype=np.float64))
     else:
         for g, pdf in G.sig_pdfs.items():
-            snap['sig_grid:%r' % g] = _b(np.asarray(pdf._pdf.values))
-        snap['bkg_grid'] = _b(np.asarray(G.bkg._pdf.values))
-        if G.stub is not None:
-            snap['stub.R'] = _b(np.asarray(G.stub.R, dtype=np.float64))
+            snap['sig_grid:%r' % g] = _b(np.asarray(_get(pdf, 'pdf', 'values')))
+        snap['bkg_grid'] = _b(np.asarray(_get(G.bkg, 'pdf', 'values')))
+    if G.stub is not None:
+        snap['stub.R'] = _b(np.asarray(G.stub.R, dtype=np.float64))
     return snap
 
 
@@ -564,26 +606,21 @@ def cache_snapshot(G):
     """the "last evaluation" caches: after evaluate(p) each is a function of (trial data, source, p) alone"""
     snap = {}
     if G.kind == 'i3':
-        c = G.energy._cache
-        snap['energy._cache.ratio'] = _b(c['ratio'])
-        snap['energy._cache.grads'] = _b(c['grads'])
-        snap['energy._cache.params'] = _b(c['interpol_params_recarray'])
-        snap['outer._cache_R_i'] = _b(G.outer._cache_R_i)
-        snap['outer._cache_R_ik'] = _b(G.outer._cache_R_ik)
-        im = G.energy._interpolmethod
+        for k in ('ratio', 'grads', 'interpol_params_recarray'):
+            snap['energy._cache.' + k] = _b(_get(G.energy, '_cache', k))
+        im = _get(G.energy, '_interpolmethod')
     else:
-        im = G.sigset._interpol_method
-        snap['inner._cache_sig_pd'] = _b(G.inner._cache_sig_pd)
-        snap['inner._cache_bkg_pd'] = _b(G.inner._cache_bkg_pd)
-        snap['inner._cache_sig_grads'] = _b(G.inner._cache_sig_grads)
-        snap['outer._cache_R_i'] = _b(G.outer._cache_R_i)
-        snap['outer._cache_R_ik'] = _b(G.outer._cache_R_ik)
-    for k, v in im._cache.items():
+        im = _get(G.sigset, '_interpol_method')
+        for k in ('_cache_sig_pd', '_cache_bkg_pd', '_cache_sig_grads'):
+            snap['inner.' + k] = _b(_get(G.inner, k))
+    for k in ('_cache_R_i', '_cache_R_ik'):
+        snap['outer.' + k] = _b(_get(G.outer, k))
+    for k, v in (_get(im, '_cache') or {}).items():
         if isinstance(v, np.ndarray):
             snap['interp._cache.' + k] = _b(v)
     if G.stub is not None:
         snap['stub._stored'] = _b(G.stub._stored)
-    snap['single._cache_nsgrad_i'] = _b(G.single._cache_nsgrad_i)
+    snap['single._cache_nsgrad_i'] = _b(_get(G.single, '_cache_nsgrad_i'))
     return snap
 
 
@@ -594,6 +631,7 @@ def pd_cache_snapshot(G):
         return out
     sid = G.tdm.trial_data_state_id
     for g, pdf in list(G.sig_pdfs.items()) + [('bkg', G.bkg)]:
-        if pdf._cache_pd is not None and pdf._cache_tdm_trial_data_state_id == sid:
-            out[g] = np.array(pdf._cache_pd)
+        cpd = getattr(pdf, '_cache_pd', None)
+        if cpd is not None and getattr(pdf, '_cache_tdm_trial_data_state_id', None) == sid:
+            out[g] = np.array(cpd)
     return out
